@@ -1,9 +1,1153 @@
-//! C10 — not implemented yet.
-use crate::util::{Args, Out};
+//! C10 — macro expansion respects lexical scope across stages (hygiene).
+//!
+//! Metamorphic oracle over executions of the real compiler and both runtimes: every case
+//! is a *pair* of complete programs that differ ONLY in the name of the binders inside
+//! the quoted code of their macro definitions (consistent alpha-renaming, bound
+//! occurrences included). In the `colliding` member the macro binder has the same name
+//! as something the macro user wrote (a local, a global, a function, a builtin, a name
+//! that looks compiler-generated); in the `renamed` member it has a fresh name. Both are
+//! compiled and run on the VM and on WASM; accept/reject and every output bit must agree
+//! per back end. The generator also knows the value the program has under lexical
+//! scoping (hand expansion of its own templates: every template is linear in the spliced
+//! value), which says which member of a differing pair is the wrong one and catches the
+//! case where both members are wrong in the same way.
+//!
+//! Templates are tagged (binder form x position of the splice relative to the binder x
+//! direction x name source); the tag's class is part of the violation signature, so every
+//! (capturing binder form, scope relation, direction) class that fails on the unchanged
+//! tree is one known finding and a failure in any other class is a violation.
+
+use super::{drive, replay_one};
+use crate::run::{Backend, RunError, run_program};
+use crate::util::{Args, Out, Rng, bits_eq, on_thread};
+use serde::{Deserialize, Serialize};
 use serde_json::{Value, json};
 
-pub fn meta(_args: &Args) -> Value {
-    json!({"level": "exploration", "rule": "not implemented", "floor": {"quick": 1000000, "thorough": 1000000}})
+// ------------------------------------------------------------------ case
+
+#[derive(Clone, Debug, Serialize, Deserialize)]
+pub struct HCase {
+    /// macro binders named like the user's name
+    pub colliding: String,
+    /// the same program with the macro binders (and their bound occurrences) renamed
+    pub renamed: String,
+    /// value of every output sample under lexical scoping (hand expansion)
+    pub expected: f64,
+    pub n: usize,
+    /// `<capturing binder form>/<scope relation>/<direction>`: class tag of the signature
+    pub class: String,
+    /// descriptive tags (evidence only)
+    #[serde(default)]
+    pub tags: Tags,
 }
-pub fn run(_args: &Args, _out: &mut Out) {}
-pub fn replay(_args: &Args, _out: &mut Out, _case: &Value) {}
+
+#[derive(Clone, Debug, Default, Serialize, Deserialize)]
+pub struct Tags {
+    pub form: String,
+    pub position: String,
+    pub direction: String,
+    pub name_source: String,
+    pub name: String,
+    pub user_entity: String,
+    #[serde(default)]
+    pub wrapper: String,
+    #[serde(default)]
+    pub via: String,
+    #[serde(default)]
+    pub site: String,
+    #[serde(default)]
+    pub macros: usize,
+    #[serde(default)]
+    pub arg_nodes: usize,
+}
+
+// ------------------------------------------------------------------ template vocabulary
+
+#[derive(Clone, Copy, Debug, PartialEq, Eq)]
+enum Form {
+    Let,
+    TupleLet,
+    NestedTupleLet,
+    LetOverNested,
+    Lambda,
+    Lambda2,
+    LetRec,
+    Match,
+}
+const FORMS: [Form; 8] =
+    [Form::Let, Form::TupleLet, Form::NestedTupleLet, Form::LetOverNested, Form::Lambda, Form::Lambda2, Form::LetRec, Form::Match];
+
+impl Form {
+    fn tag(self) -> &'static str {
+        match self {
+            Form::Let => "let",
+            Form::TupleLet => "tuple-let",
+            Form::NestedTupleLet => "nested-tuple-let",
+            Form::LetOverNested => "let+nested-tuple-let",
+            Form::Lambda => "lambda-parameter",
+            Form::Lambda2 => "lambda2-parameter",
+            Form::LetRec => "letrec",
+            Form::Match => "match-variable",
+        }
+    }
+    fn positions(self) -> &'static [Pos] {
+        use Pos::*;
+        match self {
+            Form::LetOverNested => &[Body, Value, After, Unrelated],
+            Form::Match => &[Body, Value, Before, Unrelated],
+            _ => &[Body, Value, Before, After, Surrounding, Unrelated],
+        }
+    }
+    /// binder forms whose scope is closed by the end of a block (not by a function body)
+    fn leaky(self) -> bool {
+        !matches!(self, Form::Lambda | Form::Lambda2 | Form::Match)
+    }
+    fn shapes(self) -> usize {
+        match self {
+            Form::TupleLet | Form::NestedTupleLet => 3,
+            _ => 1,
+        }
+    }
+}
+
+/// where the splice sits relative to the macro binder (down) / the user's binder (up)
+#[derive(Clone, Copy, Debug, PartialEq, Eq)]
+enum Pos {
+    /// in the body the binder scopes over ("around a splice")
+    Body,
+    /// in the expression the binder is bound to (in scope only for letrec)
+    Value,
+    /// after a block / call that contains the binder has been closed ("next to a splice")
+    Before,
+    /// in front of the binder ("next to a splice", other side)
+    After,
+    /// the user's name is used in the code after the expansion, not in the spliced code
+    Surrounding,
+    /// control: nothing the user wrote has the binder's name
+    Unrelated,
+}
+impl Pos {
+    fn tag(self) -> &'static str {
+        match self {
+            Pos::Body => "splice-in-binder-body",
+            Pos::Value => "splice-in-bound-expression",
+            Pos::Before => "splice-after-closed-binder-block",
+            Pos::After => "splice-before-binder",
+            Pos::Surrounding => "code-after-the-expansion",
+            Pos::Unrelated => "no-user-name-involved",
+        }
+    }
+}
+/// scope relation between the binder and the name it could capture: part of the signature
+fn relation(form: Form, pos: Pos) -> &'static str {
+    match (form, pos) {
+        (_, Pos::Body) | (Form::LetRec, Pos::Value) => "in-scope",
+        (_, Pos::Value) => "bound-expression",
+        (_, Pos::Before) => "after-binder-block",
+        (_, Pos::After) => "before-binder",
+        (_, Pos::Surrounding) => "after-expansion",
+        (_, Pos::Unrelated) => "no-user-name",
+    }
+}
+
+#[derive(Clone, Copy, Debug, PartialEq, Eq)]
+enum NameSrc {
+    User,
+    Builtin,
+    Dt0,
+    DtOther,
+    LambdaLike,
+}
+impl NameSrc {
+    fn tag(self) -> &'static str {
+        match self {
+            NameSrc::User => "user-name",
+            NameSrc::Builtin => "builtin-name",
+            NameSrc::Dt0 => "desugar-temporary-__dt0",
+            NameSrc::DtOther => "desugar-temporary-like",
+            NameSrc::LambdaLike => "compiler-function-name-like",
+        }
+    }
+    fn pick(self, rng: &mut Rng) -> &'static str {
+        match self {
+            NameSrc::User => *rng.pick(&["t", "x", "acc", "gain", "tmp", "v0", "amount", "idx", "level", "kk"]),
+            NameSrc::Builtin => *rng.pick(&["sqrt", "abs", "floor", "ceil"]),
+            NameSrc::Dt0 => "__dt0",
+            NameSrc::DtOther => *rng.pick(&["__dt1", "__dt2", "__dt9"]),
+            NameSrc::LambdaLike => *rng.pick(&["lambda_0", "lambda_1", "lambda_2", "__default_1_x", "record_update_temp", "_mimium_global_"]),
+        }
+    }
+}
+
+/// what the user's name denotes
+#[derive(Clone, Copy, Debug, PartialEq, Eq)]
+enum UKind {
+    Local,
+    GlobalLet,
+    GlobalFn,
+    BuiltinFn,
+}
+impl UKind {
+    fn tag(self) -> &'static str {
+        match self {
+            UKind::Local => "local-variable",
+            UKind::GlobalLet => "global-variable",
+            UKind::GlobalFn => "global-function",
+            UKind::BuiltinFn => "builtin-function",
+        }
+    }
+}
+const DOWN_SOURCES: [(NameSrc, UKind); 9] = [
+    (NameSrc::User, UKind::Local),
+    (NameSrc::User, UKind::GlobalLet),
+    (NameSrc::User, UKind::GlobalFn),
+    (NameSrc::Builtin, UKind::BuiltinFn),
+    (NameSrc::Builtin, UKind::Local),
+    (NameSrc::Dt0, UKind::Local),
+    (NameSrc::DtOther, UKind::Local),
+    (NameSrc::LambdaLike, UKind::Local),
+    (NameSrc::LambdaLike, UKind::GlobalFn),
+];
+const UP_SOURCES: [NameSrc; 5] = [NameSrc::User, NameSrc::Builtin, NameSrc::Dt0, NameSrc::DtOther, NameSrc::LambdaLike];
+
+#[derive(Clone, Copy, Debug, PartialEq, Eq)]
+enum UForm {
+    Let,
+    Lambda,
+}
+impl UForm {
+    fn tag(self) -> &'static str {
+        match self {
+            UForm::Let => "let",
+            UForm::Lambda => "lambda-parameter",
+        }
+    }
+    fn as_form(self) -> Form {
+        match self {
+            UForm::Let => Form::Let,
+            UForm::Lambda => Form::Lambda,
+        }
+    }
+}
+const UP_POS: [Pos; 4] = [Pos::Body, Pos::Value, Pos::Before, Pos::After];
+
+#[derive(Clone, Copy, Debug, PartialEq, Eq)]
+enum Via {
+    /// the user passes a macro-stage function that wraps the macro's code
+    Hof,
+    /// the wrapping is done by a second macro-stage function the macro calls
+    Helper,
+}
+
+#[derive(Clone, Copy, Debug, PartialEq, Eq)]
+enum Site {
+    Direct,
+    HelperFn,
+    LambdaInDsp,
+}
+
+fn num(x: f64) -> String {
+    format!("{x:?}")
+}
+
+#[derive(Clone, Copy, Debug)]
+struct Ks {
+    k: f64,
+    k2: f64,
+    k3: f64,
+    k4: f64,
+}
+
+/// a value `a * E + c` linear in the spliced value E
+#[derive(Clone, Copy, Debug)]
+struct Lin {
+    a: f64,
+    c: f64,
+}
+impl Lin {
+    fn at(self, e: f64) -> f64 {
+        self.a * e + self.c
+    }
+}
+
+// ------------------------------------------------------------------ binder pieces
+
+/// let-like forms: (binding statement(s) for `b` := `val`, extra summands, value of the extras)
+fn letlike(form: Form, shape: usize, j: usize, b: &str, val: &str, k: Ks) -> (String, String, f64) {
+    let (k2, k3, k4) = (num(k.k2), num(k.k3), num(k.k4));
+    match form {
+        Form::Let => (format!("let {b} = {val}"), String::new(), 0.0),
+        Form::TupleLet => match shape % 3 {
+            0 => (format!("let ({b}, zq_w{j}) = ({val}, {k2})"), format!(" + zq_w{j} * 3.0"), 3.0 * k.k2),
+            1 => (format!("let (zq_w{j}, {b}) = ({k2}, {val})"), format!(" + zq_w{j} * 3.0"), 3.0 * k.k2),
+            _ => (
+                format!("let (zq_w{j}, {b}, zq_v{j}) = ({k2}, {val}, {k3})"),
+                format!(" + zq_w{j} * 3.0 + zq_v{j} * 5.0"),
+                3.0 * k.k2 + 5.0 * k.k3,
+            ),
+        },
+        Form::NestedTupleLet => match shape % 3 {
+            0 => (
+                format!("let ((zq_a{j}, {b}), zq_c{j}) = (({k3}, {val}), {k2})"),
+                format!(" + zq_a{j} * 3.0 + zq_c{j} * 5.0"),
+                3.0 * k.k3 + 5.0 * k.k2,
+            ),
+            1 => (
+                format!("let ((zq_a{j}, zq_b{j}), ({b}, zq_d{j})) = (({k3}, {k4}), ({val}, {k2}))"),
+                format!(" + zq_a{j} * 3.0 + zq_b{j} * 5.0 + zq_d{j} * 7.0"),
+                3.0 * k.k3 + 5.0 * k.k4 + 7.0 * k.k2,
+            ),
+            _ => (
+                format!("let (zq_a{j}, (zq_b{j}, {b})) = ({k3}, ({k2}, {val}))"),
+                format!(" + zq_a{j} * 3.0 + zq_b{j} * 5.0"),
+                3.0 * k.k3 + 5.0 * k.k2,
+            ),
+        },
+        Form::LetOverNested => (
+            format!("let {b} = {val}\n     let ((zq_a{j}, zq_b{j}), zq_c{j}) = (({k3}, {k4}), {k2})"),
+            format!(" + zq_a{j} * 3.0 + zq_b{j} * 5.0 + zq_c{j} * 7.0"),
+            3.0 * k.k3 + 5.0 * k.k4 + 7.0 * k.k2,
+        ),
+        _ => unreachable!(),
+    }
+}
+
+/// number of `__dtN` temporaries the staging pass generates for one macro of this form
+fn temporaries(form: Form, shape: usize) -> usize {
+    match form {
+        Form::NestedTupleLet => {
+            if shape % 3 == 1 { 2 } else { 1 }
+        }
+        Form::LetOverNested => 1,
+        _ => 0,
+    }
+}
+/// Is `name` one of the temporaries `__dt0 .. __dt{total-1}` this program's compilation generates
+/// (counter starts at 0: every compilation runs on a fresh thread)?
+fn is_live_temporary(name: &str, total: usize) -> bool {
+    name.strip_prefix("__dt").and_then(|d| d.parse::<usize>().ok()).is_some_and(|i| i < total)
+}
+
+fn letrec_def(j: usize, b: &str, step: &str) -> String {
+    format!("letrec {b} = |zq_n{j}| if (zq_n{j} > 0.0) {b}(zq_n{j} - 1.0) + {step} else 0.0")
+}
+
+/// lambda forms: (parameter list, argument list for the value `val`, extras inside the body, their value)
+fn lambda_parts(form: Form, j: usize, b: &str, val: &str, k: Ks) -> (String, String, String, f64) {
+    match form {
+        Form::Lambda => (b.to_string(), val.to_string(), String::new(), 0.0),
+        Form::Lambda2 => (format!("zq_a{j}, {b}"), format!("{}, {val}", num(k.k2)), format!(" + zq_a{j} * 3.0"), 3.0 * k.k2),
+        _ => unreachable!(),
+    }
+}
+
+/// Quoted body of a "down" macro: binder `b` of the given form, `$zq_e` spliced at `pos`.
+/// Returns the text inside `{ .. }` and the value as a function of the spliced value.
+fn down_body(form: Form, shape: usize, pos: Pos, j: usize, b: &str, k: Ks) -> (String, Lin) {
+    let kk = num(k.k);
+    let e = "$zq_e";
+    let pos = if pos == Pos::Unrelated { Pos::Body } else { pos };
+    match form {
+        Form::Let | Form::TupleLet | Form::NestedTupleLet | Form::LetOverNested => match pos {
+            Pos::Body => {
+                let (bind, ex, xv) = letlike(form, shape, j, b, &kk, k);
+                (format!("{bind}\n     {e} + {b}{ex}"), Lin { a: 1.0, c: k.k + xv })
+            }
+            Pos::Value => {
+                let (bind, ex, xv) = letlike(form, shape, j, b, &format!("{e} + {kk}"), k);
+                (format!("{bind}\n     {b} * 2.0{ex}"), Lin { a: 2.0, c: 2.0 * k.k + xv })
+            }
+            Pos::Before => {
+                let (bind, ex, xv) = letlike(form, shape, j, b, &kk, k);
+                (
+                    format!("let zq_y{j} = {{ {bind}\n                 {b} * 2.0{ex} }}\n     zq_y{j} + {e}"),
+                    Lin { a: 1.0, c: 2.0 * k.k + xv },
+                )
+            }
+            Pos::After => {
+                let (bind, ex, xv) = letlike(form, shape, j, b, &kk, k);
+                (format!("let zq_y{j} = {e}\n     {bind}\n     zq_y{j} + {b} * 2.0{ex}"), Lin { a: 1.0, c: 2.0 * k.k + xv })
+            }
+            Pos::Surrounding => {
+                let (bind, ex, xv) = letlike(form, shape, j, b, &kk, k);
+                (format!("{bind}\n     {b} * 2.0{ex} + {e}"), Lin { a: 1.0, c: 2.0 * k.k + xv })
+            }
+            Pos::Unrelated => unreachable!(),
+        },
+        Form::Lambda | Form::Lambda2 => match pos {
+            Pos::Body => {
+                let (ps, args, ex, xv) = lambda_parts(form, j, b, &kk, k);
+                (format!("(|{ps}| {e} + {b}{ex})({args})"), Lin { a: 1.0, c: k.k + xv })
+            }
+            Pos::Value => {
+                let (ps, args, ex, xv) = lambda_parts(form, j, b, &format!("{e} + {kk}"), k);
+                (format!("(|{ps}| {b} * 2.0{ex})({args})"), Lin { a: 2.0, c: 2.0 * k.k + xv })
+            }
+            Pos::Before | Pos::Surrounding => {
+                let (ps, args, ex, xv) = lambda_parts(form, j, b, &kk, k);
+                (format!("(|{ps}| {b} * 2.0{ex})({args}) + {e}"), Lin { a: 1.0, c: 2.0 * k.k + xv })
+            }
+            Pos::After => {
+                let (ps, args, ex, xv) = lambda_parts(form, j, b, &kk, k);
+                (format!("{e} + (|{ps}| {b} * 2.0{ex})({args})"), Lin { a: 1.0, c: 2.0 * k.k + xv })
+            }
+            Pos::Unrelated => unreachable!(),
+        },
+        Form::LetRec => match pos {
+            Pos::Body | Pos::Surrounding => (format!("{}\n     {b}(2.0) + {e}", letrec_def(j, b, &kk)), Lin { a: 1.0, c: 2.0 * k.k }),
+            Pos::Value => (format!("{}\n     {b}(2.0)", letrec_def(j, b, e)), Lin { a: 2.0, c: 0.0 }),
+            Pos::Before => (
+                format!("let zq_y{j} = {{ {}\n                 {b}(2.0) }}\n     zq_y{j} + {e}", letrec_def(j, b, &kk)),
+                Lin { a: 1.0, c: 2.0 * k.k },
+            ),
+            Pos::After => (format!("let zq_y{j} = {e}\n     {}\n     zq_y{j} + {b}(2.0)", letrec_def(j, b, &kk)), Lin { a: 1.0, c: 2.0 * k.k }),
+            Pos::Unrelated => unreachable!(),
+        },
+        Form::Match => match pos {
+            Pos::Body => (format!("match ZqSom({kk}) {{ ZqSom({b}) => {e} + {b}, ZqNon => 0.0 }}"), Lin { a: 1.0, c: k.k }),
+            Pos::Value => (
+                format!("match ZqSom({e} + {kk}) {{ ZqSom({b}) => {b} * 2.0, ZqNon => 0.0 }}"),
+                Lin { a: 2.0, c: 2.0 * k.k },
+            ),
+            _ => (
+                format!("let zq_y{j} = match ZqSom({kk}) {{ ZqSom({b}) => {b} * 2.0, ZqNon => 0.0 }}\n     zq_y{j} + {e}"),
+                Lin { a: 1.0, c: 2.0 * k.k },
+            ),
+        },
+    }
+}
+
+/// Quoted body of an "up" macro: binder `b`, a reference to it is handed to `wrap` (the
+/// text of a macro-stage call taking one code argument). Returns text and (value handed
+/// over, extras value): the program's value is `W(handed) + extras`.
+fn up_body(form: Form, shape: usize, j: usize, b: &str, k: Ks, wrap: &dyn Fn(&str) -> String) -> (String, f64, f64) {
+    let kk = num(k.k);
+    match form {
+        Form::Let | Form::TupleLet | Form::NestedTupleLet | Form::LetOverNested => {
+            let (bind, ex, xv) = letlike(form, shape, j, b, &kk, k);
+            (format!("{bind}\n     $({}){ex}", wrap(&format!("`{b}"))), k.k, xv)
+        }
+        Form::Lambda | Form::Lambda2 => {
+            let (ps, args, ex, xv) = lambda_parts(form, j, b, &kk, k);
+            (format!("(|{ps}| $({}){ex})({args})", wrap(&format!("`{b}"))), k.k, xv)
+        }
+        Form::LetRec => (format!("{}\n     $({})", letrec_def(j, b, &kk), wrap(&format!("`({b}(2.0))"))), 2.0 * k.k, 0.0),
+        Form::Match => (
+            format!("match ZqSom({kk}) {{ ZqSom({b}) => $({}), ZqNon => 0.0 }}", wrap(&format!("`{b}"))),
+            k.k,
+            0.0,
+        ),
+    }
+}
+
+/// The user's wrapper around the macro's code `$zq_c`: binder `n` := `uv` of form `uf`.
+fn wrapper_body(uf: UForm, pos: Pos, n: &str, uv: f64) -> (String, Lin) {
+    let u = num(uv);
+    let c = "$zq_c";
+    match (uf, pos) {
+        (UForm::Let, Pos::Body) => (format!("let {n} = {u}\n       {c} + {n}"), Lin { a: 1.0, c: uv }),
+        (UForm::Let, Pos::Value) => (format!("let {n} = {c} + {u}\n       {n} * 2.0"), Lin { a: 2.0, c: 2.0 * uv }),
+        (UForm::Let, Pos::Before) => (
+            format!("let zq_yw = {{ let {n} = {u}\n                   {n} * 2.0 }}\n       zq_yw + {c}"),
+            Lin { a: 1.0, c: 2.0 * uv },
+        ),
+        (UForm::Let, _) => (format!("let zq_yw = {c}\n       let {n} = {u}\n       zq_yw + {n} * 2.0"), Lin { a: 1.0, c: 2.0 * uv }),
+        (UForm::Lambda, Pos::Body) => (format!("(|{n}| {c} + {n})({u})"), Lin { a: 1.0, c: uv }),
+        (UForm::Lambda, Pos::Value) => (format!("(|{n}| {n} * 2.0)({c} + {u})"), Lin { a: 2.0, c: 2.0 * uv }),
+        (UForm::Lambda, Pos::Before) => (format!("(|{n}| {n} * 2.0)({u}) + {c}"), Lin { a: 1.0, c: 2.0 * uv }),
+        (UForm::Lambda, _) => (format!("{c} + (|{n}| {n} * 2.0)({u})"), Lin { a: 1.0, c: 2.0 * uv }),
+    }
+}
+
+// ------------------------------------------------------------------ argument expressions
+
+/// Expression the user writes inside the quoted macro argument.
+#[derive(Clone, Debug)]
+enum A {
+    Num(f64),
+    /// reference to the user's entity (value known to the generator)
+    U,
+    Add(Box<A>, Box<A>),
+    Sub(Box<A>, Box<A>),
+    Mul(Box<A>, Box<A>),
+    /// `{ let zuI = a \n b }` where b may use zuI
+    Blk(usize, Box<A>, Box<A>),
+    /// `(|zuI| b)(a)`
+    Lam(usize, Box<A>, Box<A>),
+    Loc(usize),
+    /// `if (c > 0.0) a else b`
+    If(Box<A>, Box<A>, Box<A>),
+    /// nested use of macro j on a quoted argument
+    Mac(usize, Box<A>),
+}
+
+struct ArgCtx<'a> {
+    uref: &'a str,
+    uval: f64,
+    macros: &'a [Lin],
+}
+
+impl A {
+    fn print(&self, cx: &ArgCtx) -> String {
+        match self {
+            A::Num(x) => num(*x),
+            A::U => cx.uref.to_string(),
+            A::Add(a, b) => format!("({} + {})", a.print(cx), b.print(cx)),
+            A::Sub(a, b) => format!("({} - {})", a.print(cx), b.print(cx)),
+            A::Mul(a, b) => format!("({} * {})", a.print(cx), b.print(cx)),
+            A::Blk(i, a, b) => format!("{{ let zu{i} = {}\n      {} }}", a.print(cx), b.print(cx)),
+            A::Lam(i, a, b) => format!("(|zu{i}| {})({})", b.print(cx), a.print(cx)),
+            A::Loc(i) => format!("zu{i}"),
+            A::If(c, a, b) => format!("(if ({} > 0.0) {{ {} }} else {{ {} }})", c.print(cx), a.print(cx), b.print(cx)),
+            A::Mac(j, a) => format!("zq_m{j}!(`({}))", a.print(cx)),
+        }
+    }
+    fn eval(&self, cx: &ArgCtx, env: &mut Vec<(usize, f64)>) -> f64 {
+        match self {
+            A::Num(x) => *x,
+            A::U => cx.uval,
+            A::Add(a, b) => a.eval(cx, env) + b.eval(cx, env),
+            A::Sub(a, b) => a.eval(cx, env) - b.eval(cx, env),
+            A::Mul(a, b) => a.eval(cx, env) * b.eval(cx, env),
+            A::Blk(i, a, b) | A::Lam(i, a, b) => {
+                let v = a.eval(cx, env);
+                env.push((*i, v));
+                let r = b.eval(cx, env);
+                env.pop();
+                r
+            }
+            A::Loc(i) => env.iter().rev().find(|(j, _)| j == i).map(|x| x.1).unwrap_or(f64::NAN),
+            A::If(c, a, b) => {
+                if c.eval(cx, env) > 0.0 {
+                    a.eval(cx, env)
+                } else {
+                    b.eval(cx, env)
+                }
+            }
+            A::Mac(j, a) => cx.macros[*j].at(a.eval(cx, env)),
+        }
+    }
+    fn mentions_u(&self) -> bool {
+        match self {
+            A::U => true,
+            A::Num(_) | A::Loc(_) => false,
+            A::Add(a, b) | A::Sub(a, b) | A::Mul(a, b) | A::Blk(_, a, b) | A::Lam(_, a, b) => a.mentions_u() || b.mentions_u(),
+            A::If(c, a, b) => c.mentions_u() || a.mentions_u() || b.mentions_u(),
+            A::Mac(_, a) => a.mentions_u(),
+        }
+    }
+    fn nodes(&self) -> usize {
+        match self {
+            A::U | A::Num(_) | A::Loc(_) => 1,
+            A::Add(a, b) | A::Sub(a, b) | A::Mul(a, b) | A::Blk(_, a, b) | A::Lam(_, a, b) => 1 + a.nodes() + b.nodes(),
+            A::If(c, a, b) => 1 + c.nodes() + a.nodes() + b.nodes(),
+            A::Mac(_, a) => 1 + a.nodes(),
+        }
+    }
+}
+
+fn small(rng: &mut Rng) -> f64 {
+    *rng.pick(&[1.0, 2.0, 3.0, 4.0, 5.0, 0.5, 1.5, 2.5, 7.0])
+}
+
+#[derive(Clone, Copy)]
+struct Opts {
+    with_u: bool,
+    nmacros: usize,
+    no_if: bool,
+    /// may a nested macro use sit in an `if` arm, a block or a lambda call? Not for let-like
+    /// binders: the binders of the inner expansion stay visible afterwards (same scope defect as
+    /// `after-binder-block`) and the enclosing expansion of the same macro then reads them —
+    /// uninitialised if the arm was not taken, dead on the VM if a closure call came between.
+    /// Those programs are wrong with either binder name, which renaming cannot show.
+    mac_in_arm: bool,
+}
+
+fn gen_arg(rng: &mut Rng, depth: usize, o: Opts, locals: &mut Vec<usize>, next: &mut usize) -> A {
+    let Opts { with_u, nmacros, no_if, .. } = o;
+    let leaf = |rng: &mut Rng, locals: &Vec<usize>| -> A {
+        let r = rng.below(4);
+        if with_u && r < 2 {
+            A::U
+        } else if r == 2 && !locals.is_empty() {
+            A::Loc(*rng.pick(locals))
+        } else {
+            A::Num(small(rng))
+        }
+    };
+    if depth == 0 || rng.chance(1, 4) {
+        return leaf(rng, locals);
+    }
+    let b = |x: A| Box::new(x);
+    match rng.below(if nmacros > 0 { 8 } else { 7 }) {
+        0 => A::Add(b(gen_arg(rng, depth - 1, o, locals, next)), b(gen_arg(rng, depth - 1, o, locals, next))),
+        1 => A::Sub(b(gen_arg(rng, depth - 1, o, locals, next)), b(gen_arg(rng, depth - 1, o, locals, next))),
+        2 => A::Mul(b(gen_arg(rng, depth - 1, o, locals, next)), b(A::Num(small(rng)))),
+        3 | 4 => {
+            let i = *next;
+            *next += 1;
+            let o = if o.mac_in_arm { o } else { Opts { nmacros: 0, ..o } };
+            let v = gen_arg(rng, depth - 1, o, locals, next);
+            locals.push(i);
+            let body = A::Add(b(A::Loc(i)), b(gen_arg(rng, depth - 1, o, locals, next)));
+            locals.pop();
+            if rng.chance(1, 2) { A::Blk(i, b(v), b(body)) } else { A::Lam(i, b(v), b(body)) }
+        }
+        5 if !no_if => A::If(
+            b(gen_arg(rng, depth - 1, o, locals, next)),
+            b(gen_arg(rng, depth - 1, if o.mac_in_arm { o } else { Opts { nmacros: 0, ..o } }, locals, next)),
+            b(A::Num(small(rng))),
+        ),
+        5 | 6 => A::Add(b(leaf(rng, locals)), b(A::Num(small(rng)))),
+        _ => A::Mac(rng.below(nmacros), b(gen_arg(rng, depth - 1, o, locals, next))),
+    }
+}
+
+// ------------------------------------------------------------------ program assembly
+
+struct DownSpec {
+    form: Form,
+    shape: usize,
+    pos: Pos,
+    src: NameSrc,
+    ukind: UKind,
+    site: Site,
+    nmacros: usize,
+    depth: usize,
+    quick_consts: bool,
+    q_if_in_aggregate: bool,
+}
+
+fn consts(rng: &mut Rng, fixed: bool, j: usize) -> Ks {
+    if fixed {
+        let s = (j + 1) as f64;
+        return Ks { k: 10.0 * s, k2: 100.0 * s, k3: 1000.0 * s, k4: 10000.0 * s };
+    }
+    let mut pool: Vec<f64> = vec![6.0, 8.0, 10.0, 12.0, 20.0, 30.0, 50.0, 64.0, 100.0, 128.0, 300.0, 1000.0, 2048.0];
+    rng.shuffle(&mut pool);
+    Ks { k: pool[0], k2: pool[1], k3: pool[2], k4: pool[3] }
+}
+
+/// text of a reference to the user's entity and its value
+fn user_ref(ukind: UKind, n: &str, uv: f64, rng: &mut Rng) -> (String, f64) {
+    match ukind {
+        UKind::Local | UKind::GlobalLet => (n.to_string(), uv),
+        UKind::GlobalFn => {
+            let c = small(rng);
+            (format!("{n}({})", num(c)), c + uv)
+        }
+        UKind::BuiltinFn => match n {
+            "sqrt" => {
+                let c = *rng.pick(&[2.0, 3.0, 4.0, 1.5]);
+                (format!("sqrt({})", num(c * c)), c)
+            }
+            "abs" => {
+                let c = small(rng);
+                (format!("abs(0.0 - {})", num(c)), c)
+            }
+            "floor" => {
+                let c = *rng.pick(&[1.0, 2.0, 5.0]);
+                (format!("floor({})", num(c + 0.5)), c)
+            }
+            _ => {
+                let c = *rng.pick(&[1.0, 2.0, 5.0]);
+                (format!("ceil({})", num(c + 0.5)), c + 1.0)
+            }
+        },
+    }
+}
+
+fn wrap_site(site: Site, local_decl: &str, expr: &str) -> String {
+    let ld = if local_decl.is_empty() { String::new() } else { format!("  {local_decl}\n") };
+    match site {
+        Site::Direct => format!("fn dsp(){{\n{ld}  {expr}\n}}\n"),
+        Site::HelperFn => format!("fn zq_h(zq_p){{\n{ld}  {expr} + zq_p\n}}\nfn dsp(){{\n  zq_h(0.0)\n}}\n"),
+        Site::LambdaInDsp => format!("fn dsp(){{\n  (|zq_q| {{\n{ld}  {expr} + zq_q }})(0.0)\n}}\n"),
+    }
+}
+
+fn build_down(spec: &DownSpec, rng: &mut Rng) -> HCase {
+    let n = spec.src.pick(rng);
+    let uv = if spec.quick_consts { 1.0 } else { small(rng) };
+    // two different macros whose binders share the colliding name would capture each other
+    // through the same defect, so let-like forms get one macro (possibly used several times)
+    let nm = if spec.form.leaky() { 1 } else { spec.nmacros.max(1) };
+    let mut lins = vec![];
+    let mut defs = [String::new(), String::new()]; // colliding, renamed
+    for j in 0..nm {
+        let k = consts(rng, spec.quick_consts, j);
+        let fresh = format!("zq_fresh{j}");
+        for (v, b) in [n, fresh.as_str()].iter().enumerate() {
+            let (body, lin) = down_body(spec.form, spec.shape, spec.pos, j, b, k);
+            defs[v].push_str(&format!("fn zq_m{j}(zq_e){{\n  `{{ {body} }}\n}}\n"));
+            if v == 0 {
+                lins.push(lin);
+            }
+        }
+    }
+    let mentions = !matches!(spec.pos, Pos::Surrounding | Pos::Unrelated);
+    let (uref, uval) = user_ref(spec.ukind, n, uv, rng);
+    let cx = ArgCtx { uref: &uref, uval, macros: &lins };
+    // A `let`-like binder stays visible until the end of the enclosing function on the
+    // unchanged tree (a finding of its own, classes `after-binder-block-closed` /
+    // `after-the-expansion`). To keep the other classes' observations clean, a nested macro use
+    // in the positions that are expected to hold is only generated as a chain whose innermost
+    // argument alone mentions the user's name.
+    // quarantine `if-inside-aggregate-literal` (a C01-C03 finding: an `if` inside a tuple literal
+    // breaks both back ends): the spliced argument lands inside the tuple literal of the binder
+    let no_if = spec.q_if_in_aggregate && spec.pos == Pos::Value && matches!(spec.form, Form::TupleLet | Form::NestedTupleLet);
+    let chain_only = spec.form.leaky() && matches!(spec.pos, Pos::Value | Pos::After);
+    let mut arg = if spec.depth == 0 {
+        if mentions { A::U } else { A::Num(2.0) }
+    } else if chain_only {
+        let mut a = gen_arg(rng, spec.depth, Opts { with_u: mentions, nmacros: 0, no_if, mac_in_arm: false }, &mut vec![], &mut 0);
+        if mentions && !a.mentions_u() {
+            a = A::Add(Box::new(A::U), Box::new(a));
+        }
+        for _ in 0..rng.below(3) {
+            let inner = if rng.chance(1, 2) { A::Add(Box::new(a), Box::new(A::Num(small(rng)))) } else { A::Mul(Box::new(a), Box::new(A::Num(small(rng)))) };
+            a = A::Mac(rng.below(nm), Box::new(inner));
+        }
+        a
+    } else {
+        let usable = if nm > 1 || rng.chance(1, 3) { nm } else { 0 };
+        gen_arg(rng, spec.depth, Opts { with_u: mentions, nmacros: usable, no_if, mac_in_arm: !spec.form.leaky() }, &mut vec![], &mut 0)
+    };
+    if mentions && !arg.mentions_u() {
+        arg = A::Add(Box::new(A::U), Box::new(arg));
+    }
+    let e = arg.eval(&cx, &mut vec![]);
+    let outer = nm - 1;
+    let call = format!("zq_m{outer}!(`({}))", arg.print(&cx));
+    let mut expected = lins[outer].at(e);
+    let (pre, expr) = match spec.pos {
+        Pos::Surrounding => {
+            expected += uval * 100.0;
+            (format!("let zq_r = {call}"), format!("zq_r + {uref} * 100.0"))
+        }
+        _ => (String::new(), call),
+    };
+    let user_declares = spec.pos != Pos::Unrelated;
+    let (mut globals, mut local) = (String::new(), String::new());
+    if user_declares {
+        match spec.ukind {
+            UKind::Local => local = format!("let {n} = {}", num(uv)),
+            UKind::GlobalLet => globals = format!("let {n} = {}\n", num(uv)),
+            UKind::GlobalFn => globals = format!("fn {n}(zq_p){{\n  zq_p + {}\n}}\n", num(uv)),
+            UKind::BuiltinFn => {}
+        }
+    }
+    if !pre.is_empty() {
+        local = if local.is_empty() { pre } else { format!("{local}\n  {pre}") };
+    }
+    let main = wrap_site(spec.site, &local, &expr);
+    let head = if spec.form == Form::Match { "type ZqOpt = ZqSom(float) | ZqNon\n" } else { "" };
+    let mk = |d: &str| format!("{head}#stage(macro)\n{d}#stage(main)\n{globals}{main}");
+    HCase {
+        colliding: mk(&defs[0]),
+        renamed: mk(&defs[1]),
+        expected,
+        n: 2,
+        class: if is_live_temporary(n, nm * temporaries(spec.form, spec.shape)) {
+            format!("{}/live-desugar-temporary-name/macro-captures-user", spec.form.tag())
+        } else {
+            format!("{}/{}/macro-captures-user", spec.form.tag(), relation(spec.form, spec.pos))
+        },
+        tags: Tags {
+            form: spec.form.tag().into(),
+            position: spec.pos.tag().into(),
+            direction: "macro-captures-user".into(),
+            name_source: spec.src.tag().into(),
+            name: n.into(),
+            user_entity: if user_declares { spec.ukind.tag().into() } else { "none".into() },
+            wrapper: String::new(),
+            via: String::new(),
+            site: format!("{:?}", spec.site),
+            macros: nm,
+            arg_nodes: arg.nodes(),
+        },
+    }
+}
+
+struct UpSpec {
+    form: Form,
+    shape: usize,
+    uform: UForm,
+    upos: Pos,
+    via: Via,
+    src: NameSrc,
+    site: Site,
+    quick_consts: bool,
+}
+
+fn build_up(spec: &UpSpec, rng: &mut Rng) -> HCase {
+    let n = spec.src.pick(rng);
+    let uv = if spec.quick_consts { 1.0 } else { small(rng) };
+    let k = consts(rng, spec.quick_consts, 0);
+    let (wbody, wlin) = wrapper_body(spec.uform, spec.upos, n, uv);
+    let mut progs = vec![];
+    let mut expected = 0.0;
+    for b in [n, "zq_fresh0"] {
+        let (defs, call) = match spec.via {
+            Via::Hof => {
+                let (body, handed, xv) = up_body(spec.form, spec.shape, 0, b, k, &|code| format!("zq_k({code})"));
+                expected = wlin.at(handed) + xv;
+                (format!("fn zq_m0(zq_k){{\n  `{{ {body} }}\n}}\n"), format!("zq_m0!(|zq_c| `{{ {wbody} }})"))
+            }
+            Via::Helper => {
+                let (body, handed, xv) = up_body(spec.form, spec.shape, 0, b, k, &|code| format!("zq_wrap({code})"));
+                expected = wlin.at(handed) + xv;
+                (
+                    format!("fn zq_wrap(zq_c){{\n  `{{ {wbody} }}\n}}\nfn zq_m0(){{\n  `{{ {body} }}\n}}\n"),
+                    "zq_m0!()".to_string(),
+                )
+            }
+        };
+        let head = if spec.form == Form::Match { "type ZqOpt = ZqSom(float) | ZqNon\n" } else { "" };
+        progs.push(format!("{head}#stage(macro)\n{defs}#stage(main)\n{}", wrap_site(spec.site, "", &call)));
+    }
+    let renamed = progs.pop().unwrap();
+    let colliding = progs.pop().unwrap();
+    HCase {
+        colliding,
+        renamed,
+        expected,
+        n: 2,
+        class: if is_live_temporary(n, temporaries(spec.form, spec.shape)) {
+            format!("{}/live-desugar-temporary-name/user-captures-macro", spec.form.tag())
+        } else {
+            format!("{}/{}/user-captures-macro", spec.uform.tag(), relation(spec.uform.as_form(), spec.upos))
+        },
+        tags: Tags {
+            form: spec.form.tag().into(),
+            position: spec.upos.tag().into(),
+            direction: "user-captures-macro".into(),
+            name_source: spec.src.tag().into(),
+            name: n.into(),
+            user_entity: "binder-in-user-code-around-the-macro's-code".into(),
+            wrapper: spec.uform.tag().into(),
+            via: format!("{:?}", spec.via),
+            site: format!("{:?}", spec.site),
+            macros: 1,
+            arg_nodes: 0,
+        },
+    }
+}
+
+// ------------------------------------------------------------------ enumeration of the tag space
+
+#[derive(Clone, Copy)]
+enum Combo {
+    Down(Form, usize, Pos, NameSrc, UKind),
+    Up(Form, usize, UForm, Pos, Via, NameSrc),
+}
+
+/// Shapes the generator keeps away from, and why.
+/// (a) letrec whose bound function body contains the splice, with a *function* as the user's
+///     entity: in the colliding program the user's call is captured by the function being
+///     defined, which then calls itself unconditionally — the worker dies of stack overflow
+///     instead of reporting. The class (letrec / in scope) stays covered by value entities.
+fn kills_worker(form: Form, pos: Pos, uk: UKind) -> bool {
+    form == Form::LetRec && pos == Pos::Value && matches!(uk, UKind::GlobalFn | UKind::BuiltinFn)
+}
+/// (b) quarantine `capture-of-destructured-variable` (a C01/C02 finding: on WASM a lambda that
+///     captures a variable bound by a tuple pattern reads an address): the user's lambda around
+///     the macro's code would capture the macro's tuple-bound variable in the *renamed* member.
+fn wasm_tuple_capture(form: Form, uform: UForm, upos: Pos) -> bool {
+    matches!(form, Form::TupleLet | Form::NestedTupleLet) && uform == UForm::Lambda && upos == Pos::Body
+}
+
+fn combos(q_tuple_capture: bool) -> Vec<Combo> {
+    let mut v = vec![];
+    for form in FORMS {
+        for shape in 0..form.shapes() {
+            for &pos in form.positions() {
+                for (src, uk) in DOWN_SOURCES {
+                    if pos == Pos::Unrelated && uk != UKind::Local {
+                        continue; // the user's entity does not exist in this control
+                    }
+                    if kills_worker(form, pos, uk) {
+                        continue;
+                    }
+                    if shape > 0 && form == Form::TupleLet && !(src == NameSrc::User && uk == UKind::Local) {
+                        continue; // tuple shapes beyond the first: one name source is enough
+                    }
+                    v.push(Combo::Down(form, shape, pos, src, uk));
+                }
+            }
+        }
+    }
+    for form in FORMS {
+        for uform in [UForm::Let, UForm::Lambda] {
+            for upos in UP_POS {
+                for via in [Via::Hof, Via::Helper] {
+                    for src in UP_SOURCES {
+                        if q_tuple_capture && wasm_tuple_capture(form, uform, upos) {
+                            continue;
+                        }
+                        v.push(Combo::Up(form, 0, uform, upos, via, src));
+                    }
+                }
+            }
+        }
+    }
+    v
+}
+
+fn generate_case(idx: usize, rng: &mut Rng, all: &[Combo], qs: (bool, bool)) -> HCase {
+    let q_tuple_capture = qs.0;
+    if idx < all.len() {
+        return match all[idx] {
+            Combo::Down(form, shape, pos, src, ukind) => {
+                build_down(&DownSpec { form, shape, pos, src, ukind, site: Site::Direct, nmacros: 1, depth: 0, quick_consts: true, q_if_in_aggregate: qs.1 }, rng)
+            }
+            Combo::Up(form, shape, uform, upos, via, src) => {
+                build_up(&UpSpec { form, shape, uform, upos, via, src, site: Site::Direct, quick_consts: true }, rng)
+            }
+        };
+    }
+    // random exploration: random tags, constants, argument expressions, nesting and use sites
+    let site = *rng.pick(&[Site::Direct, Site::Direct, Site::HelperFn, Site::LambdaInDsp]);
+    if rng.chance(7, 10) {
+        let form = *rng.pick(&FORMS[..7]); // `match` in quoted code is refused today; the enumeration keeps watching it
+        let pos = *rng.pick(form.positions());
+        let (src, ukind) = *rng.pick(&DOWN_SOURCES);
+        let (src, ukind) = if kills_worker(form, pos, ukind) { (NameSrc::User, UKind::Local) } else { (src, ukind) };
+        let ukind = if pos == Pos::Unrelated { UKind::Local } else { ukind };
+        build_down(
+            &DownSpec {
+                form,
+                shape: rng.below(3),
+                pos,
+                src,
+                ukind,
+                site,
+                nmacros: if rng.chance(1, 3) { 2 } else { 1 },
+                depth: 1 + rng.below(3),
+                quick_consts: false,
+                q_if_in_aggregate: qs.1,
+            },
+            rng,
+        )
+    } else {
+        let form = *rng.pick(&FORMS[..7]);
+        let mut uform = *rng.pick(&[UForm::Let, UForm::Lambda]);
+        let upos = *rng.pick(&UP_POS);
+        if q_tuple_capture && wasm_tuple_capture(form, uform, upos) {
+            uform = UForm::Let;
+        }
+        build_up(
+            &UpSpec {
+                form,
+                shape: rng.below(3),
+                uform,
+                upos,
+                via: *rng.pick(&[Via::Hof, Via::Helper]),
+                src: *rng.pick(&UP_SOURCES),
+                site,
+                quick_consts: false,
+            },
+            rng,
+        )
+    }
+}
+
+// ------------------------------------------------------------------ oracle
+
+#[derive(Clone, Debug)]
+enum Oc {
+    Ran(usize, Vec<f64>),
+    /// the compiler answered with diagnostics
+    Rejected(String),
+    /// panic in a compiler phase / in dsp, or the back end refused the module
+    Failed(String),
+    Harness(String),
+}
+impl Oc {
+    fn kind(&self) -> &'static str {
+        match self {
+            Oc::Ran(..) => "ran",
+            Oc::Rejected(_) => "rejected",
+            Oc::Failed(_) => "failed",
+            Oc::Harness(_) => "harness",
+        }
+    }
+    fn short(&self) -> String {
+        match self {
+            Oc::Ran(ch, v) => format!("ran, {ch} channel(s), first samples {:?}", &v[..v.len().min(4)]),
+            Oc::Rejected(m) => format!("rejected: {}", m.chars().take(160).collect::<String>()),
+            Oc::Failed(m) => format!("failed: {}", m.chars().take(160).collect::<String>()),
+            Oc::Harness(m) => format!("harness: {m}"),
+        }
+    }
+    fn same(&self, o: &Oc) -> bool {
+        match (self, o) {
+            (Oc::Ran(c1, a), Oc::Ran(c2, b)) => c1 == c2 && a.len() == b.len() && a.iter().zip(b).all(|(x, y)| bits_eq(*x, *y)),
+            (Oc::Rejected(_), Oc::Rejected(_)) | (Oc::Failed(_), Oc::Failed(_)) => true,
+            _ => false,
+        }
+    }
+    fn is_expected(&self, want: f64, n: usize) -> bool {
+        matches!(self, Oc::Ran(1, v) if v.len() == n && v.iter().all(|x| bits_eq(*x, want)))
+    }
+}
+
+/// Compile and run on a fresh thread: the desugaring-temporary counter of the staging pass
+/// is thread-local, so a fresh thread makes the generated `__dtN` names (and with them the
+/// case) independent of what the worker compiled before.
+fn run_fresh(b: Backend, src: &str, n: usize) -> Oc {
+    let s = src.to_string();
+    let r = on_thread(256 << 20, move || run_program(b, &s, false, n, &|_, _| 0.0, false, None));
+    match r {
+        Ok(Ok(o)) => Oc::Ran(o.channels, o.out),
+        Ok(Err(RunError::Build(be))) if be.is_reject() => Oc::Rejected(be.short()),
+        Ok(Err(e)) => Oc::Failed(e.short()),
+        Err(p) if p.loc.contains("harness/src") || p.msg == "thread died" => Oc::Harness(format!("{} @ {}", p.msg, p.loc)),
+        Err(p) => Oc::Failed(format!("panic {} @ {}", p.msg, p.loc)),
+    }
+}
+
+fn exec(c: &HCase, idx: usize, out: &mut Out) -> bool {
+    let mut differ: Vec<String> = vec![];
+    let (mut c_dev, mut r_dev, mut r_ok_somewhere) = (false, false, false);
+    let (mut ran_both, mut agree_dev, mut agree_ok, mut any_ran) = (0u32, 0u32, 0u32, false);
+    let mut detail = String::new();
+    for b in [Backend::Vm, Backend::Wasm] {
+        let oc = run_fresh(b, &c.colliding, c.n);
+        let or = run_fresh(b, &c.renamed, c.n);
+        if let Oc::Harness(m) = &oc {
+            out.inconclusive(idx, m);
+            return false;
+        }
+        if let Oc::Harness(m) = &or {
+            out.inconclusive(idx, m);
+            return false;
+        }
+        out.count(&format!("outcome:{}:colliding={}/renamed={}", b.name(), oc.kind(), or.kind()), 1);
+        any_ran |= matches!(oc, Oc::Ran(..)) || matches!(or, Oc::Ran(..));
+        let ce = oc.is_expected(c.expected, c.n);
+        let re = or.is_expected(c.expected, c.n);
+        detail.push_str(&format!(
+            "[{}] colliding: {} | renamed: {} | lexical scoping gives {:?} per sample. ",
+            b.name(),
+            oc.short(),
+            or.short(),
+            c.expected
+        ));
+        if let (Oc::Ran(_, x), Oc::Ran(..)) = (&oc, &or) {
+            ran_both += 1;
+            out.count("output_words_compared", x.len() as u64);
+        }
+        if oc.same(&or) {
+            if matches!(oc, Oc::Ran(..)) {
+                if ce { agree_ok += 1 } else { agree_dev += 1 }
+            }
+        } else {
+            differ.push(b.name().to_string());
+            c_dev |= !ce;
+            r_dev |= !re;
+            r_ok_somewhere |= re;
+        }
+    }
+    out.count("pairs_executed", 1);
+    out.count(&format!("form:{}", c.tags.form), 1);
+    out.count(&format!("position:{}", c.tags.position), 1);
+    out.count(&format!("direction:{}", c.tags.direction), 1);
+    out.count(&format!("name_source:{}", c.tags.name_source), 1);
+    out.set("forms", c.tags.form.clone());
+    out.set("positions", c.tags.position.clone());
+    out.set("directions", c.tags.direction.clone());
+    out.set("name_sources", c.tags.name_source.clone());
+    out.set("colliding_names", c.tags.name.clone());
+    out.set("user_entities", c.tags.user_entity.clone());
+    out.set("tag_combinations", format!("{}|{}|{}|{}|{}", c.tags.form, c.tags.position, c.tags.direction, c.tags.name_source, c.tags.user_entity));
+    let report = |out: &mut Out, sig: String| {
+        let key = format!("violations:{sig}");
+        let seen = out.counters.get(&key).copied().unwrap_or(0);
+        out.count(&key, 1);
+        if seen < 4 {
+            out.violation(idx, &sig, &detail, &serde_json::to_value(c).unwrap());
+        }
+    };
+    // When the colliding name is one of the `__dtN` temporaries this very compilation generates,
+    // the temporary captures it in either member (or both, or with no visible effect), so the
+    // class gets one signature whichever clause saw it.
+    let live = c.class.contains("/live-desugar-temporary-name/");
+    let observed;
+    if !differ.is_empty() {
+        // a front-end (scoping) fault of the renamed member shows on every back end; if it meets
+        // the hand expansion on one of them, its deviation on the other is a back-end matter (C01)
+        if r_dev && r_ok_somewhere {
+            out.count("renamed_member_deviates_on_one_back_end_only", 1);
+            r_dev = false;
+        }
+        let who = match (c_dev, r_dev) {
+            (true, false) => "colliding-wrong",
+            (false, true) => "renamed-wrong",
+            _ => "both-wrong",
+        };
+        observed = format!("renaming changes meaning ({who})");
+        if live {
+            report(out, format!("desugar-temporary-captures: {}", c.class));
+        } else {
+            report(out, format!("rename-differs: {}/{who}", c.class));
+        }
+    } else if ran_both > 0 && agree_ok == 0 && agree_dev > 0 {
+        observed = "pair agrees, both differ from lexical scoping".to_string();
+        if live {
+            report(out, format!("desugar-temporary-captures: {}", c.class));
+        } else {
+            report(out, format!("pair-agrees-wrong: {}", c.class));
+        }
+    } else if agree_dev > 0 {
+        // one back end computes something else for both members: not a scoping matter
+        observed = "pair agrees, one back end differs from lexical scoping".to_string();
+        out.inconclusive(idx, &format!("both members deviate from the hand expansion on one back end only: {detail}"));
+    } else if ran_both > 0 {
+        observed = "pair agrees with lexical scoping".to_string();
+        out.count("pairs_equal_to_hand_expansion", 1);
+    } else {
+        observed = "both members refused".to_string();
+        out.count("pairs_refused_alike", 1);
+    }
+    out.set("class_observations", format!("{} => {observed}", c.class));
+    any_ran && c.colliding != c.renamed
+}
+
+// ------------------------------------------------------------------ entry points
+
+const Q_TUPLE: &str = "capture-of-destructured-variable";
+const Q_IF: &str = "if-inside-aggregate-literal";
+
+pub fn meta(args: &Args) -> Value {
+    let ncombo = combos(args.q(Q_TUPLE)).len();
+    let nrand = args.cases(300, 10_000);
+    json!({
+        "level": "exploration",
+        "rule": format!("Each case is a pair of complete programs that differ only in the name of the binders inside the quoted code of their macro definitions (colliding: the binder has the name of something the macro user wrote; renamed: a fresh name), both compiled and run for 2 samples on VM and WASM, each compilation on a fresh thread. Accept/reject and every output bit must agree per back end; the generator's hand expansion (templates are linear in the spliced value) says which member is wrong and catches pairs that agree on a wrong value on every back end that ran. (a) all {ncombo} tag combinations: binder form (let, tuple-let x3 shapes, nested tuple-let x3 shapes incl. two nested sub-patterns, let over a nested tuple-let, lambda parameter, second lambda parameter, letrec, match variable) x position of the splice (in the binder's body, in the bound expression, after the binder's block was closed, before the binder, user name used after the expansion, control without any user name) x direction (macro binder captures user name: local / global variable / global function / builtin function; user binder (let, lambda parameter; passed as a macro-stage function or applied by a helper macro) captures the macro's variable) x name source (user names, builtin names, __dt0, __dtN, lambda_N/__default_1_x/record_update_temp/_mimium_global_); (b) {nrand} random cases: random tags, constants, argument expressions (arithmetic, blocks, lambdas, if, nested macro uses), 1-2 macros, use site in dsp / in a helper function / in a lambda. Not generated: a user function spliced into the body of a same-named letrec (the captured program recurses forever); for let-like binders, which outlive their block on the unchanged tree, a second macro with the same binder name and nested uses of the macro inside if arms, blocks and lambda calls (positions that are expected to hold get nested uses only as a chain around the one argument that mentions the user's name); shapes of the quarantines capture-of-destructured-variable and if-inside-aggregate-literal while those are active. Non-trivial = the two texts differ and at least one member was accepted and ran on at least one back end; distinct = hash of the pair."),
+        "assumptions": [
+            "fresh names (zq_*) never collide with anything a template contains",
+            "the hand expansion is exact: constants are small dyadic rationals, only + - * sqrt abs floor ceil on them",
+            "a pair that agrees but misses the hand-expanded value on one back end only is left to C01 (counted inconclusive); a renamed member that meets the hand expansion on one back end is not called wrong for missing it on the other",
+            "when the colliding name is a __dtN temporary that this compilation generates, the class is 'live-desugar-temporary-name' whatever the position (either member can be the wrong one)",
+            "match inside quoted code is refused by the unchanged tree (code_match undefined): those pairs are observed as 'both refused'"
+        ],
+        "floor": {"quick": 400, "thorough": 4000},
+        "case_timeout_s": 120,
+        "hang_is_violation": false,
+        "crash_is_violation": false,
+        "exhaustive": false,
+    })
+}
+
+pub fn run(args: &Args, out: &mut Out) {
+    let q = (args.q(Q_TUPLE), args.q(Q_IF));
+    let all = combos(q.0);
+    let total = all.len() + args.cases(300, 10_000);
+    out.max_samples = 2;
+    drive(args, out, total, |idx, rng| Some(generate_case(idx, rng, &all, q)), exec);
+}
+
+pub fn replay(_args: &Args, out: &mut Out, case: &Value) {
+    replay_one::<HCase>(out, case, exec);
+}
